@@ -57,6 +57,7 @@ pub fn all_fun_families(cfg: &FunCfg, sink: &mut FunSink) {
     fam_wide(cfg, sink);
     fam_byname(cfg, sink);
     fam_declonly(cfg, sink);
+    fam_alias(cfg, sink);
     if cfg.with_unsequenced {
         fam_effect(cfg, sink);
     }
@@ -862,6 +863,51 @@ pub fn fam_declonly(_cfg: &FunCfg, sink: &mut FunSink) {
     ];
     for (name, src) in progs {
         sink.offer(move || FunCase { name: format!("declonly/{name}"), src: format!("{src}\n"), inputs: vec![vec![0], vec![4]], sequenced: true });
+    }
+}
+
+// ---- FUN-ALIAS: every construct with operands that are *renamed away* by the compiler: a variable
+// bound by a let to another variable, by the clause of a known constructor / known cocase, or free
+// in a lifted continuation (each stage substitutes variables for variables in every operand slot) ----
+pub fn fam_alias(_cfg: &FunCfg, sink: &mut FunSink) {
+    let uses: Vec<(&str, &str)> = vec![
+        ("sub", "println_i64(a - b); 0"),
+        ("sub_rev", "println_i64(b - a); 0"),
+        ("rem", "println_i64((a + 100) % (b + 7)); 0"),
+        ("if_lt", "if a < b { println_i64(1); 0 } else { println_i64(2); 0 }"),
+        ("if_ge", "if a >= b { println_i64(1); 0 } else { println_i64(2); 0 }"),
+        ("if_eq_rev", "if b == a { println_i64(1); 0 } else { println_i64(2); 0 }"),
+        ("ifz_snd", "if b == 0 { println_i64(a); 0 } else { println_i64(b); 1 }"),
+        ("print_both", "println_i64(b); println_i64(a); 0"),
+        ("call", "println_i64(sub2(a, b)); 0"),
+        ("call_rev", "println_i64(sub2(b, a)); 0"),
+        ("ctor", "println_i64(Tup(a, b).case[i64, i64] { Tup(p, q) => p - q }); 0"),
+        ("dtor_args", "println_i64((new { ap2(p, q) => p - q }).ap2(b, a)); 0"),
+        ("exit", "println_i64(a); exit b"),
+        ("goto", "println_i64(label k { if a == 0 { goto k (b) } else { a - b } }); 0"),
+        ("result", "println_i64(a); b"),
+        ("closure_capture", "let f: Fun[i64, i64] = new { ap(q) => (q + a) - b }; println_i64(f.ap[i64, i64](1)); 0"),
+    ];
+    let binders: Vec<(&str, &str)> = vec![
+        ("let_alias", "let a: i64 = n; let b: i64 = m; #"),
+        ("let_alias_one", "let a: i64 = n; let b: i64 = m + 0; #"),
+        ("known_case", "Tup(n, m).case[i64, i64] { Tup(a, b) => # }"),
+        ("known_case_swapped", "Tup(m, n).case[i64, i64] { Tup(b, a) => # }"),
+        ("known_cocase", "(new { ap2(a, b) => # }).ap2(n, m)"),
+        ("lifted", "let a: i64 = n; let b: i64 = m; let rest: List[i64] = range(2); println_i64(sum(rest)); #"),
+        ("param_alias_in_def", "via(n, m)"),
+    ];
+    for (un, u) in &uses {
+        for (bn, bnd) in &binders {
+            let (un, u, bn, bnd) = (*un, *u, *bn, *bnd);
+            sink.offer(move || {
+                let body = bnd.replace('#', u);
+                let src = format!(
+                    "{PRELUDE_TYPES}codata Fun2 {{ ap2(x: i64, y: i64): i64 }}\n{PRELUDE_DEFS}def sub2(p: i64, q: i64): i64 {{ p - q }}\ndef via(x: i64, y: i64): i64 {{ let a: i64 = x; let b: i64 = y; {u} }}\ndef main(n: i64, m: i64): i64 {{ {body} }}\n"
+                );
+                FunCase { name: format!("alias/{bn}/{un}"), src, inputs: vec![vec![7, 3], vec![0, 0], vec![3, 7], vec![0, 5]], sequenced: true }
+            });
+        }
     }
 }
 
